@@ -402,6 +402,7 @@ fn instantiate_struct_fields(
 }
 
 fn collect_runtime_types(
+    goenv: &GlobalGoEnv,
     file: &anf::File,
 ) -> (IndexSet<tast::Ty>, IndexSet<tast::Ty>, IndexSet<tast::Ty>) {
     struct Collector {
@@ -413,10 +414,25 @@ fn collect_runtime_types(
     impl Collector {
         fn collect_file(
             mut self,
+            goenv: &GlobalGoEnv,
             file: &anf::File,
         ) -> (IndexSet<tast::Ty>, IndexSet<tast::Ty>, IndexSet<tast::Ty>) {
             for item in &file.toplevels {
                 self.collect_fn(item);
+            }
+            // Field types of the emitted type definitions need their helper types declared
+            // even when no expression of that type occurs in the program.
+            for (_, def) in goenv.structs() {
+                for (_, ty) in &def.fields {
+                    self.collect_type(ty);
+                }
+            }
+            for (_, def) in goenv.enums() {
+                for (_, tys) in &def.variants {
+                    for ty in tys {
+                        self.collect_type(ty);
+                    }
+                }
             }
             (self.tuples, self.arrays, self.refs)
         }
@@ -560,9 +576,11 @@ fn collect_runtime_types(
                         self.collect_type(elem);
                     }
                 }
-                tast::Ty::TStruct { name: _ } => {
-                    // Vec types are handled as slices, no special collection needed
+                tast::Ty::TVec { elem } => {
+                    // the slice itself needs no declaration, its element type may
+                    self.collect_type(elem);
                 }
+                tast::Ty::TStruct { name: _ } => {}
                 tast::Ty::TApp { ty, args } => {
                     // Vec types are handled as slices, no special collection needed
                     self.collect_type(ty);
@@ -586,7 +604,7 @@ fn collect_runtime_types(
         arrays: IndexSet::new(),
         refs: IndexSet::new(),
     }
-    .collect_file(file)
+    .collect_file(goenv, file)
 }
 
 #[derive(Default)]
@@ -2265,7 +2283,7 @@ pub fn go_file(
     let goenv = GlobalGoEnv::from_anf_env(anfenv);
     let mut all = Vec::new();
 
-    let (tuple_types, array_types, ref_types) = collect_runtime_types(&file);
+    let (tuple_types, array_types, ref_types) = collect_runtime_types(&goenv, &file);
 
     all.extend(runtime::make_runtime());
     all.extend(runtime::make_array_runtime(&array_types));
